@@ -4,7 +4,7 @@
    the API calls; all schedules = all label sequences; repaired code, fixes/C17.patch).
    Specification: spec/SeederSpec.v. *)
 From Coq Require Import NArith List Bool Sorted.
-From LV Require Import model.Seeder spec.SeederSpec proofs.SeederProofs proofs.SeederQueues proofs.SeederSessions proofs.SeederLifetime proofs.SeederCounts proofs.SeederRefine proofs.SeederLiveness proofs.SeederOrder model.Workers proofs.WorkersProofs.
+From LV Require Import model.Seeder spec.SeederSpec proofs.SeederProofs proofs.SeederQueues proofs.SeederSessions proofs.SeederLifetime proofs.SeederCounts proofs.SeederRefine proofs.SeederLiveness proofs.SeederOrder model.WorkersFifo proofs.WorkersFifoProofs.
 Import ListNotations.
 Local Open Scope N_scope.
 
